@@ -9,7 +9,7 @@ RULE = 'command words not in the current palette (edit-distance-1 neighbours of 
 TABLES = Path(__file__).resolve().parents[1] / 'tables.current.json'
 DUCKY3 = ['ATTACKMODE', 'HOLD', 'RELEASE', 'WAIT_FOR_BUTTON_PRESS', 'BUTTON_DEF', 'LED_R', 'LED_G', 'LED_OFF', 'INJECT_MOD', 'RANDOM_LOWERCASE_LETTER', 'RESTART_PAYLOAD',
           'STOP_PAYLOAD', 'DEFINE', 'END_IF', 'END_WHILE', 'THEN', 'JITTER', 'VID_0000', 'HIDE_PAYLOAD', 'SAVE_HOST_KEYBOARD_LOCK_STATE', 'EXFIL', 'STRING_POWERSHELL', 'END_STRING']
-W = dict(emit=4, assign=2, ifchain=2.5, repeat=2, whil=1, brk=0.5, func=1.2, call=2, ret=0.1, prnt=0.1, exist=0.1)
+W = dict(emit=4, assign=2, ifchain=2.5, repeat=2, whil=1, brk=0.5, func=1.2, call=2, ret=0.1, prnt=0.1, exist=0.1, rawkw=0)      # (the known-only family must contain no unknown line)
 
 
 def known_names():
